@@ -16,6 +16,7 @@ LONG_OPS = ["U", "O", "X", "UO", "OU", "XU", "UOX"]
 # the library's own (plain) evaluate_931..935 methods mixed with harness keys answered by coroutine methods and vice versa
 BUILTIN_EXPRS = ["[901] U [931]", "[901] U ([931] O [932])", "[931] X [901] U [934]", "([902] O [933]) U [999] X [935]", "[932] U [901] O [934]", "[999] X [933] X [901]"]
 BUILTIN_TEXTS = ["2022-12-31T23:00:00+00:00", "2022-06-01T04:00:00+00:00", "2022-01-01T00:00:00+00:00", "2022-01-01T00:00:00+01:30", "kein Datum"]
+OVERRIDE_EXPRS = ["[933]", "[935] U [933]", "[901] X [935]", "[933] O [932]", "[931] U [934] X [935]"]
 ORDER_EXPRS = ["[950]O([951]U[952])", "([952] X [950]) U [951]", "[951] U [952] O [950]"]
 BOOL = {"and_composition": lambda a, b: a and b, "or_composition": lambda a, b: a or b, "xor_composition": lambda a, b: a != b}
 
@@ -34,7 +35,7 @@ def describe(tier):
                 "value == documented combination of the verdicts each shipped constraint gives alone; "
                 f"flat chains with {LONG[tier]} key occurrences x operator patterns {LONG_OPS} (2 or 3 keys cycling under all assignments; all keys distinct under "
                 "all-true / all-false with <= 1 deviation: deviation-bounded, not all 2^L); expressions with <= 3 leaves also through the library's DictBased / "
-                "ContentEvaluationResultBased format constraint evaluators (fresh and one shared EvaluatableData object) and user-style method based evaluators. Non-trivial = (expression, assignment) pairs with >= 2 "
+                "ContentEvaluationResultBased format constraint evaluators (fresh and one shared EvaluatableData object) and user-style method based evaluators (also ones that define their own methods for the shipped keys 931-935). Non-trivial = (expression, assignment) pairs with >= 2 "
                 "operators.",
         "bounds": {"leaves": BOUNDS[tier]},
         "exhaustive": True,
@@ -302,6 +303,17 @@ def run_item(item):
                 for v in vs:
                     r.violation(v["kind"], v["case"], v["expected"], v["observed"], v["msg"])
                 r.sample({"expr": expr, "mode": item["mode"]})
+            if item["mode"] == "methods" and item["n"] == 2:
+                # user evaluators may define THEIR OWN evaluate methods for the keys the library ships (931-935)
+                for expr in OVERRIDE_EXPRS:
+                    vs, n = check_expr_mode(expr, "methods")
+                    r.evaluations += n
+                    r.states += n
+                    r.transitions += n
+                    r.traces += 1
+                    r.nontrivial += n
+                    for v in vs:
+                        r.violation(v["kind"], v["case"], v["expected"], v["observed"], v["msg"])
         finally:
             M.restore()
         return r
